@@ -3,6 +3,7 @@ C09 — property theorem `C09_load_marshal_preserves`: loading any valid manifes
 unchanged preserves every file's content (and needs no Keep write at all).
 -/
 import ArvVerif.Proofs.C09_Load
+import ArvVerif.Proofs.C09_Glue
 import ArvVerif.Props.C09
 namespace ArvVerif.C09
 
@@ -172,6 +173,49 @@ theorem C09_load_marshal_preserves (txt : Bytes) (M : C10.Manifest)
     cases hL'
     exact h2
 
+/-- **Load, then save unchanged — with the glue hypotheses decided by execution.** The model driver
+builds C08's directory/handle layer from the loader's flat image (`fsOfTree`), extracts the directory
+list it marshals (`treeOf`) and evaluates `glueOK` on it after every load (`loadFSChecked`; a failed
+check is printed as `load=glue`, which never agrees with the implementation). Whenever that check
+passes, all conclusions of `C09_load_marshal_preserves` hold for the very list the driver marshals —
+no hypothesis about the glue is left; and the loader's size function is `sizeOfLoc` (what
+`fsLocator` reads from the locator). -/
+theorem C09_load_marshal_checked (txt : Bytes) (M : C10.Manifest)
+    (hvalid : C10.parseSpec txt = some M) (hfit : ∀ s ∈ M, C10.FitsFs s) (htree : C10.TreeConsistent M)
+    (k : Keep) (hk : KeepOK hash k)
+    (hblocks : ∀ s ∈ M, ∀ b ∈ s.blocks, ∃ x, k.store b.text = some x ∧ x.length = b.size) :
+    (∃ r, loadFSChecked k txt = some r) ∧
+      ∀ s, loadFSChecked k txt = some (some s) →
+        ∃ txt' L', marshal9 hash max k (treeOf s) = (k, treeOf s, MRes.ok txt') ∧ treeLines (treeOf s) = some L' ∧
+          (∀ d ∈ treeOf s, ∀ f ∈ d.files,
+            C10.pathOf (prefixOf d.path) f.1 ∈ C10.pathsOf M ∧
+            C08.abs k.store f.2 = C10.fileContent (blkOf k.store) M (C10.pathOf (prefixOf d.path) f.1) ∧
+            C10.fileContent (blkOf k.store) (streamsOf L') (C10.pathOf (prefixOf d.path) f.1) =
+              C10.fileContent (blkOf k.store) M (C10.pathOf (prefixOf d.path) f.1)) ∧
+          (∀ p ∈ C10.pathsOf M, ∃ d ∈ treeOf s, ∃ f ∈ d.files, p = C10.pathOf (prefixOf d.path) f.1) ∧
+          (NoDel (treeOf s) → parse9 txt' = some L') := by
+  have hsize : ∀ s ∈ M, ∀ b ∈ s.blocks, sizeOfLoc b.text = b.size := by
+    intro s hs b hb
+    have h1 := parseSpec_blocks txt M hvalid s hs b hb
+    have h2 : b.size < C10.two31 := (hfit s hs).1 b hb
+    unfold sizeOfLoc
+    rw [(C10.fsLocator_spec b.text b h1 h2).1]
+  obtain ⟨tr, hload, hmain⟩ := C09_load_marshal_preserves (max := max) (hash := hash) txt M hvalid hfit htree k hk hblocks
+    sizeOfLoc hsize
+  constructor
+  · unfold loadFSChecked; rw [hload]; exact ⟨_, rfl⟩
+  · intro s hs
+    unfold loadFSChecked at hs
+    rw [hload] at hs
+    simp only [Option.map_some, Option.some.injEq] at hs
+    split at hs
+    · next hg =>
+      simp only [Option.some.injEq] at hs
+      subst hs
+      obtain ⟨g1, g2, g3, g4⟩ := glueOK_sound sizeOfLoc tr _ hg
+      exact hmain _ g1 g2 g3 g4
+    · cases hs
+
 /-! ## non-vacuity -/
 
 def exLoc : Bytes := C10.str "aaaaaaaaaaaaaaaaaaaaaaaaaaaaaaaa+3"
@@ -211,5 +255,19 @@ locator is listed once, the two parts of `a` are not contiguous and stay apart) 
 example : (marshal9 (fun _ => exLoc) 4 exKeepL
     [⟨[], [([97], ⟨[Seg.stored exLoc 3 1 2, Seg.stored exLoc 3 0 2], 4, 0⟩), ([98], FileNode.empty)], 0⟩]).2.2 =
     MRes.ok (C10.str ". aaaaaaaaaaaaaaaaaaaaaaaaaaaaaaaa+3 1:2:a 0:2:a 0:0:b\n") := by decide +kernel
+
+/-- the glue check passes on that text (the driver's own path: loader, `fsOfTree`, `treeOf`), and the
+list it yields is the one of the example above -/
+example : (match loadFSChecked exKeepL exTxt with
+    | some (some s) => (treeOf s).map (fun d => (d.path, d.files.map (·.1), d.nsub))
+    | _ => []) = [([], [[97], [98]], 0)] := by decide +kernel
+
+/-- the check is not trivially true: a list lacking the loaded file `b`, and a list whose file `a` has
+its two segments swapped, are both rejected -/
+example : glueOK (fun _ => 3) ⟨[], [([[97]], [⟨exLoc, 1, 2⟩, ⟨exLoc, 0, 2⟩]), ([[98]], [])]⟩
+    [⟨[], [([97], ⟨[Seg.stored exLoc 3 1 2, Seg.stored exLoc 3 0 2], 4, 0⟩)], 0⟩] = false := by decide +kernel
+example : glueOK (fun _ => 3) ⟨[], [([[97]], [⟨exLoc, 1, 2⟩, ⟨exLoc, 0, 2⟩]), ([[98]], [])]⟩
+    [⟨[], [([97], ⟨[Seg.stored exLoc 3 0 2, Seg.stored exLoc 3 1 2], 4, 0⟩), ([98], FileNode.empty)], 0⟩] = false := by
+  decide +kernel
 
 end ArvVerif.C09
